@@ -68,6 +68,9 @@ class NormalizingExperimenter(experimenter.Experimenter):
     for parameters in sampled_params:
       trial = vz.Trial(parameters=parameters)
       exptr.evaluate([trial])
+      if trial.infeasible:
+        # Infeasible trials carry no (or NaN) metric values.
+        continue
       measurement = trial.final_measurement
       for name, metric in (measurement.metrics if measurement else {}).items():
         metrics[name].append(metric.value)
@@ -138,4 +141,10 @@ class HyperCubeExperimenter(experimenter.Experimenter):
     self._exptr.evaluate(orig_suggestions)
 
     for suggestion, orig_suggestion in zip(suggestions, orig_suggestions):
-      suggestion.final_measurement = orig_suggestion.final_measurement
+      if orig_suggestion.infeasible:
+        suggestion.complete(
+            orig_suggestion.final_measurement or vz.Measurement(),
+            infeasibility_reason=orig_suggestion.infeasibility_reason,
+        )
+      else:
+        suggestion.final_measurement = orig_suggestion.final_measurement
